@@ -68,3 +68,20 @@ func (dv *Router) Vf18RibUpdate(name enc.Name, advert *tlv.Advertisement) bool {
 
 // Vf18CheckDead runs the dead-neighbour sweep of the deadcheck ticker.
 func (dv *Router) Vf18CheckDead() { dv.checkDeadNeighbors() }
+
+// Vf18StoreAdvert does the first half of advertDataHandler: it stores the received advertisement in the
+// neighbour's state object and returns that object (advertDataHandler then starts `go dv.ribUpdate(ns)`).
+func (dv *Router) Vf18StoreAdvert(name enc.Name, advert *tlv.Advertisement) *table.NeighborState {
+	dv.mutex.Lock()
+	defer dv.mutex.Unlock()
+	ns := dv.neighbors.Get(name)
+	if ns == nil {
+		return nil
+	}
+	ns.Advert = advert
+	return ns
+}
+
+// Vf18RibUpdateNs is the second half: the ribUpdate started by advertDataHandler, run (possibly late) on the state
+// object it was started with.
+func (dv *Router) Vf18RibUpdateNs(ns *table.NeighborState) { dv.ribUpdate(ns) }
